@@ -1,6 +1,7 @@
 //! S3 helper: `ToHtml`, `Html`, `HtmlBuffer`, `to_buffer` of the *library* copy of utils.rs
 //! against scheduled sinks and chunking Display values.
-//! case:   <wrapper D|H|B|BB> <pieces hex,hex,..|-> <schedule tokens aN|i|fN,..|->
+//! case:   <wrapper D|H|B|HB|BB|FB> <pieces hex,hex,..|-> <schedule tokens aN|i|fN|wN,..|->
+//!         FB = B on a thread where a to_buffer() of a failing ToHtml value came just before; wN = fails with WouldBlock
 //! result: <hex of accepted bytes> <ok|wz|ioN|other:..> [<hex buffer> <eq flags>]
 use crate::{hex, unhex};
 use ructe::templates::{Html, ToHtml};
@@ -21,6 +22,15 @@ enum Resp {
     Accept(usize),
     Interrupted,
     Fail(u32),
+    WouldBlock(u32),
+}
+/// a value with its own ToHtml that writes some bytes and then fails
+struct Failing(Vec<u8>);
+impl ToHtml for Failing {
+    fn to_html(&self, out: &mut dyn Write) -> io::Result<()> {
+        out.write_all(&self.0)?;
+        Err(io::Error::new(io::ErrorKind::Other, "E99"))
+    }
 }
 struct Sink {
     sched: std::collections::VecDeque<Resp>,
@@ -40,6 +50,7 @@ impl Write for Sink {
             }
             Some(Resp::Interrupted) => Err(io::Error::new(io::ErrorKind::Interrupted, "int")),
             Some(Resp::Fail(e)) => Err(io::Error::new(io::ErrorKind::Other, format!("E{e}"))),
+            Some(Resp::WouldBlock(e)) => Err(io::Error::new(io::ErrorKind::WouldBlock, format!("E{e}"))),
         }
     }
     fn flush(&mut self) -> io::Result<()> {
@@ -54,7 +65,7 @@ fn res_str(r: io::Result<()>) -> String {
         Err(e) => {
             let m = e.to_string();
             match m.strip_prefix('E') {
-                Some(n) if e.kind() == io::ErrorKind::Other => format!("io{n}"),
+                Some(n) if e.kind() == io::ErrorKind::Other || e.kind() == io::ErrorKind::WouldBlock => format!("io{n}"),
                 _ => format!("other:{:?}", e.kind()),
             }
         }
@@ -79,6 +90,7 @@ pub fn run() {
                 sink.sched.push_back(match &t[..1] {
                     "a" => Resp::Accept(t[1..].parse().unwrap()),
                     "i" => Resp::Interrupted,
+                    "w" => Resp::WouldBlock(t[1..].parse().unwrap()),
                     _ => Resp::Fail(t[1..].parse().unwrap()),
                 });
             }
@@ -88,6 +100,13 @@ pub fn run() {
             "D" => (v.to_html(&mut sink), None),
             "H" => (Html(&v).to_html(&mut sink), None),
             "B" => {
+                let b = v.to_buffer().unwrap();
+                let r = b.to_html(&mut sink);
+                (r, Some(b))
+            }
+            "FB" => {
+                let junk = Failing(b"<leftover>&".to_vec()).to_buffer();
+                assert!(junk.is_err());
                 let b = v.to_buffer().unwrap();
                 let r = b.to_html(&mut sink);
                 (r, Some(b))
